@@ -273,25 +273,29 @@ def persist (j : Journal) (msg : Bytes) (h : Handle) (dir : Dir) : Journal × Re
       | none => (j, .raised .duplicateSeqNo)
       | some j1 => (updCounter j1 dir n h.key, .none)
 
-/-- `Journaler.set_seq_num()`; also returns the mutated session object.  When binding overflows
-after the UPDATE, the UPDATE stays visible on this connection (and uncommitted). -/
+/-- effective next numbers of a `set_seq_num` call: the argument, or (argument `None`) what the
+session object holds -/
+def effOut (h : Handle) (out : Option Int) : Int := out.getD h.nextOut
+def effIn (h : Handle) (inn : Option Int) : Int := inn.getD h.nextIn
+
+/-- `Journaler.set_seq_num()`; the result carries the session object as mutated (the outbound
+number is assigned before the inbound assertion is evaluated).  When binding overflows after the
+UPDATE, the UPDATE stays visible on this connection (and uncommitted). -/
 def setSeqNum (j : Journal) (h : Handle) (out inn : Option Int) : Journal × Res :=
   if out.any (· ≤ 0) then (j, .set h (some .assertion))
+  else if inn.any (· ≤ 0) then (j, .set { h with nextOut := effOut h out } (some .assertion))
+  else if !(fits (effIn h inn - 1) && fits (effOut h out - 1) && fits h.key) then
+    (j, .set { h with nextOut := effOut h out, nextIn := effIn h inn } (some .overflow))
+  else if !fits (effIn h inn) then
+    (updBoth j (effIn h inn - 1) (effOut h out - 1) h.key,
+      .set { h with nextOut := effOut h out, nextIn := effIn h inn } (some .overflow))
+  else if !fits (effOut h out) then
+    (delFrom (updBoth j (effIn h inn - 1) (effOut h out - 1) h.key) h.key (effIn h inn) .inbound,
+      .set { h with nextOut := effOut h out, nextIn := effIn h inn } (some .overflow))
   else
-    let h1 := match out with | some o => { h with nextOut := o } | none => h
-    if inn.any (· ≤ 0) then (j, .set h1 (some .assertion))
-    else
-      let h2 := match inn with | some i => { h1 with nextIn := i } | none => h1
-      let o := h2.nextOut
-      let i := h2.nextIn
-      if !(fits (i - 1) && fits (o - 1) && fits h.key) then (j, .set h2 (some .overflow))
-      else
-        let j1 := updBoth j (i - 1) (o - 1) h.key
-        if !fits i then (j1, .set h2 (some .overflow))
-        else
-          let j2 := delFrom j1 h.key i .inbound
-          if !fits o then (j2, .set h2 (some .overflow))
-          else (delFrom j2 h.key o .outbound, .set h2 none)
+    (delFrom (delFrom (updBoth j (effIn h inn - 1) (effOut h out - 1) h.key) h.key (effIn h inn) .inbound)
+        h.key (effOut h out) .outbound,
+      .set { h with nextOut := effOut h out, nextIn := effIn h inn } none)
 
 /-- `Journaler.recover_messages()` (binding order key, direction, start, end) -/
 def recoverMessages (j : Journal) (h : Handle) (dir : Dir) (lo hi : Bound) : Res :=
